@@ -224,9 +224,9 @@ def items(tier, seed):
     for d in DOCS:
         for fi in range(len(FIELDS) - 1):
             out.append({'h': 'shape', 'doc': d[0], 'fi': fi, 'sym': 'kind', 'cost': 2})
-        if tier != 'quick' or d[0] == 'plain':
+        if tier != 'quick' or d[0] in ('plain', 'ctrl'):
             # offset symbolic and unbounded; one work item per length (parallel)
-            for lf in ((-1, 0, 1, 2, 7, 1000) if tier == 'quick' else
+            for lf in ((1,) if (tier == 'quick' and d[0] == 'ctrl') else ())  or ((-1, 0, 1, 2, 7, 1000) if tier == 'quick' else
                        (-1000, -2, -1, 0, 1, 2, 3, 5, 7, 12, 50, 1000)):
                 out.append({'h': 'shape', 'doc': d[0], 'fi': len(FIELDS) - 1, 'sym': 'range',
                             'lfix': lf, 'cost': 9, 'budget': 900})
